@@ -55,7 +55,7 @@ theorem addEdge_error (G : DiG) (u v : Int) (e : Err) (h : G.addEdge u v = .erro
   · simp at h; exact h.symm
   · split at h <;> simp at h
 
-theorem addEdgesFrom_error (es : List (Int × Int)) (G : DiG) (e : Err)
+theorem addEdgesFrom_error_gb (es : List (Int × Int)) (G : DiG) (e : Err)
     (h : G.addEdgesFrom es = .error e) : e = .valueError := by
   induction es generalizing G with
   | nil => simp [addEdgesFrom, List.foldlM, pure, Except.pure] at h
@@ -125,25 +125,25 @@ theorem pyramid_error (h : Int) (e : Err) (he : GBuild.pyramid h = .error e) : e
   unfold GBuild.pyramid at he
   split at he
   · simp at he; exact he.symm
-  · exact DiG.addEdgesFrom_error _ _ _ he
+  · exact DiG.addEdgesFrom_error_gb _ _ _ he
 
 theorem tree_error (h : Int) (e : Err) (he : GBuild.tree h = .error e) : e = .valueError := by
   unfold GBuild.tree at he
   split at he
   · simp at he; exact he.symm
-  · exact DiG.addEdgesFrom_error _ _ _ he
+  · exact DiG.addEdgesFrom_error_gb _ _ _ he
 
 theorem path_error (h : Int) (e : Err) (he : GBuild.path h = .error e) : e = .valueError := by
   unfold GBuild.path at he
   split at he
   · simp at he; exact he.symm
-  · exact DiG.addEdgesFrom_error _ _ _ he
+  · exact DiG.addEdgesFrom_error_gb _ _ _ he
 
 theorem completeGraph_error (n : Int) (e : Err) (he : GBuild.completeGraph n = .error e) : e = .valueError := by
   unfold GBuild.completeGraph at he
   split at he
   · simp at he; exact he.symm
-  · exact SimpleG.addEdgesFrom_error _ _ _ he
+  · exact SimpleG.addEdgesFrom_error_gb _ _ _ he
 
 theorem emptyGraph_error (n : Int) (e : Err) (he : GBuild.emptyGraph n = .error e) : e = .valueError := by
   unfold GBuild.emptyGraph at he
@@ -157,7 +157,7 @@ theorem shift_error (N M : Int) (p : List Int) (e : Err) (he : GBuild.shift N M 
   · simp at he; exact he.symm
   · rw [except_bind_error] at he
     rcases he with he | ⟨G, _, he⟩
-    · exact (BipG.addEdgesFrom_error _ _ _ he).1
+    · exact (BipG.addEdgesFrom_error_gb _ _ _ he).1
     · simp [pure, Except.pure] at he
 
 theorem coinLoopS_only (lt : Nat → Bool) (ps : List (Nat × Nat)) (G : SimpleG) : Only VE (coinLoopS lt ps G) := by
